@@ -40,12 +40,17 @@ ClampClauses(e) ==
    IN IF ok THEN {} ELSE {name} \cup (IF Lt(e.val, want) THEN {"NotBelowMinimum"} ELSE {})
 
 \* ---- BEP
-AdjSlopeD(d, dir, a) == IF dir = Native(d) THEN a ELSE Sub(a, I(1))
+\* E_a = (slope * D + intercept) * uf in the native direction, ((slope - 1) * D + intercept) * uf in
+\* the other one.  slope - 1 is never formed (it cancels when the slope is close to one): the
+\* three products slope*D*uf, D*uf, intercept*uf are summed and all of them set the scale.
 BepClauses(e) ==
    IF ~SlopeSpecified(e.desc, e.dir) THEN {}
-   ELSE LET t1 == Mul(AdjSlopeD(e.desc, e.dir, e.slope), e.D)
-            want == Mul(Add(t1, e.icpt), e.uf)
-        IN IF CloseIn(e.val, want, {Mul(t1, e.uf), Mul(e.icpt, e.uf)}, 6) THEN {} ELSE {"BepRelation"}
+   ELSE LET native == e.dir = Native(e.desc)
+            t1 == Mul(Mul(e.slope, e.D), e.uf)
+            t2 == IF native THEN Zero ELSE Mul(e.D, e.uf)
+            t3 == Mul(e.icpt, e.uf)
+            want == Add(Sub(t1, t2), t3)
+        IN IF CloseIn(e.val, want, {t1, t2, t3}, 6) THEN {} ELSE {"BepRelation"}
 BepDiffClauses(e) ==
    IF ~IsDelta(e.desc) THEN {}
    ELSE LET delta == IF UsesH(e.desc) THEN e.dH ELSE e.dE
